@@ -10,7 +10,7 @@ with probability `p_fail` one run-time failure (index/key/zero-division/type/ari
 Node shapes
   expr: ("none",) ("bool",b) ("int",z) ("str",s) ("var",x) ("tuple",[e]) ("list",[e]) ("dict",[(k,v)])
         ("un",op,e) ("bin",op,a,b) ("and",a,b) ("or",a,b) ("ifx",c,t,f) ("index",a,i) ("slice",a,lo,hi,st)
-        ("call",f,[args],[(name,e)],star,dstar) ("meth",recv,name,[args]) ("lambda",[params],body)
+        ("call",f,[args],[(name,e)],star,dstar) ("meth",recv,name,[args][,[(name,e)]]) ("lambda",[params],body)
         ("lcomp",e,[clauses]) ("dcomp",k,v,[clauses])
   clause: ("for",target,e) ("if",e)      param: ("p",x,default|None) ("args",x) ("kwargs",x)
   target: ("tvar",x) ("ttuple",[t]) ("tindex",a,i)
@@ -20,6 +20,14 @@ Node shapes
 import random
 
 INT, BOOL, STR, NONE = "int", "bool", "str", "none"
+
+# rendering mode: the CPython rendering of `s.elems()` is `list(s)` (Python strings have no elems(); a Starlark string is
+# not iterable, so the generator only ever iterates `s.elems()`); everything else is rendered identically
+_PY = [False]
+
+# characters of generated string literals when the "strings" feature is on (ASCII; no "\r"/"\x0b"/"\x0c"/"\x1c".."\x1f":
+# see coq/Core/DIFFS.md; ":" is left out because the transcript printer of the cases.v route splits at "\n :")
+STR_ALPHA = "abcxyzABZ019  __,,--..%{}\t\n'\"\\"
 
 
 def tlist(t):
@@ -53,11 +61,14 @@ class Gen:
         self.max_depth = max_depth
         self.p_fail = p_fail
         self.features = set(features)
+        self.strings = "strings" in self.features          # MiniStar stage 2: string methods / formatting / repr
+        self.repr_str = "repr_str" in self.features        # repr of values containing strings (Starlark quoting: not comparable with CPython)
         self.counter = 0
         self.budget = max_stmts
         self.fail_planted = False
         self.want_fail = rng.random() < p_fail
         self.stats = {}
+        self.uses_strings = False
 
     # ---- bookkeeping ---------------------------------------------------------------------------
     def fresh(self, prefix="v"):
@@ -75,6 +86,8 @@ class Gen:
 
     # ---- types ------------------------------------------------------------------------------------
     def rand_type(self, depth=2, hashable=False):
+        if self.strings and not hashable and depth >= 1 and self.chance(0.12):
+            return self.pick([tlist(STR), tlist(STR), ttuple([STR, STR, STR]), tlist(ttuple([INT, STR])), tlist(ttuple([STR, STR])), STR])
         r = self.rng.random()
         if depth <= 0 or r < 0.55:
             return self.pick([INT, INT, INT, STR, STR] if hashable else [INT, INT, INT, STR, STR, BOOL])
@@ -98,6 +111,8 @@ class Gen:
             return ("bool", self.chance(0.5))
         if t == STR:
             n = self.pick([0, 1, 1, 2, 3, 5])
+            if self.strings and self.chance(0.6):
+                return ("str", self.str_text(self.pick([0, 1, 2, 3, 4, 6, 9, 17, 20])))
             return ("str", "".join(self.pick("abcxyz01 _") for _ in range(n)))
         if t == NONE:
             return ("none",)
@@ -144,6 +159,12 @@ class Gen:
         if self.chance(0.15):
             e = self.elem_access(scope, t, depth - 1)
             if e is not None:
+                return e
+        if self.strings and depth > 0 and self.chance(0.3):
+            e = self.str_op(scope, t, depth - 1)
+            if e is not None:
+                self.note("string_op")
+                self.uses_strings = True
                 return e
         if t == INT:
             k = self.rng.random()
@@ -260,6 +281,217 @@ class Gen:
                 return self.dict_comp(scope, t, depth - 1)
             return self.lit(t, depth)
         return self.lit(t, depth)
+
+    # ---- MiniStar stage 2: strings ------------------------------------------------------------------------
+    def str_text(self, n):
+        return "".join(self.pick(STR_ALPHA) for _ in range(n))
+
+    def sep_lit(self):
+        """A non-empty separator / needle literal."""
+        return ("str", self.pick([",", " ", "a", "ab", "--", ".", "_", "\n", "b", "x", "01", ", "]))
+
+    def needle(self, scope, depth):
+        if self.chance(0.6):
+            return self.sep_lit()
+        if self.chance(0.3):
+            return ("str", "")
+        return self.expr(scope, STR, depth)
+
+    def window_args(self):
+        """Optional start / end arguments of find, count, startswith, ... (None allowed)."""
+        r = self.rng.random()
+        ix = lambda: ("int", self.pick([0, 1, 2, 3, -1, -2, -3, 5, 100, -100]))
+        if r < 0.5:
+            return []
+        if r < 0.75:
+            return [ix()]
+        if r < 0.85:
+            return [("none",), ix()]
+        return [ix(), ix()]
+
+    def repr_safe_type(self, depth=2):
+        """A type whose values print identically in Starlark and Python (no strings inside: Starlark quotes with
+        double quotes), unless the program is in the Starlark-only `repr_str` mode."""
+        base = [INT, INT, BOOL, NONE] + ([STR, STR] if self.repr_str else [])
+        r = self.rng.random()
+        if depth <= 0 or r < 0.5:
+            return self.pick(base)
+        if r < 0.7:
+            return tlist(self.repr_safe_type(depth - 1))
+        if r < 0.9:
+            return ttuple([self.repr_safe_type(depth - 1) for _ in range(self.rng.randint(0, 3))])
+        return tdict(self.pick([INT, STR] if self.repr_str else [INT]), self.repr_safe_type(depth - 1))
+
+    def percent_expr(self, scope, depth):
+        """"lit %s lit %d ..." % args with matching arity and types."""
+        n = self.pick([0, 1, 1, 1, 2, 2, 3])
+        fmt, args = "", []
+        for _ in range(n):
+            fmt += self.str_text(self.pick([0, 1, 2])).replace("%", "%%")
+            c = self.pick(["s", "s", "d", "d", "r", "x", "o", "X"])
+            fmt += "%" + c
+            if c == "s":
+                t = self.pick([STR, STR, self.repr_safe_type(1)])
+            elif c == "r":
+                t = self.repr_safe_type(1)
+            else:
+                t = INT
+            args.append(self.expr(scope, t, depth))
+        fmt += self.str_text(self.pick([0, 1, 2])).replace("%", "%%")
+        if self.chance(0.2):
+            fmt += "%%"
+        if n == 1 and args[0][0] != "tuple" and self.chance(0.5) and not self.is_tuple_typed(args[0]):
+            return ("bin", "%", ("str", fmt), args[0])
+        return ("bin", "%", ("str", fmt), ("tuple", args))
+
+    def is_tuple_typed(self, e):
+        # a single non-tuple argument may be passed bare; be conservative: only literals / calls known not to be tuples
+        return e[0] not in ("int", "str", "bool", "none", "list", "dict", "lcomp", "dcomp")
+
+    def format_expr(self, scope, depth):
+        """"{} {0} {name} {{}}".format(...): automatic OR manual numbering, named fields, !r / !s conversions."""
+        n = self.pick([0, 1, 1, 2, 2, 3])
+        manual = self.chance(0.35)
+        names = ["a", "b", "key", "x1"]
+        fmt, args, kwargs = "", [], []
+        esc = lambda x: x.replace("{", "{{").replace("}", "}}")
+        for i in range(n):
+            fmt += esc(self.str_text(self.pick([0, 1, 2])))
+            conv = self.pick(["", "", "", "!s", "!r"])
+            t = self.repr_safe_type(1) if conv == "!r" else self.pick([STR, STR, INT, self.repr_safe_type(1)])
+            e = self.expr(scope, t, depth)
+            if self.chance(0.3):
+                nm = names[len(kwargs) % len(names)] + ("" if len(kwargs) < len(names) else str(len(kwargs)))
+                kwargs.append((nm, e))
+                fmt += "{%s%s}" % (nm, conv)
+                if self.chance(0.2):
+                    fmt += "{%s}" % nm
+            else:
+                args.append(e)
+                fmt += "{%s%s}" % (str(len(args) - 1) if manual else "", conv)
+        if manual and args and self.chance(0.4):
+            fmt += "{%d}" % self.rng.randrange(len(args))
+        fmt += esc(self.str_text(self.pick([0, 1, 2])))
+        if self.chance(0.15):
+            args.append(self.expr(scope, INT, 0))                       # surplus positional arguments are ignored
+        return ("meth", ("str", fmt), "format", args, kwargs)
+
+    def str_list_expr(self, scope, depth):
+        """An expression of type list[str] built by a string method."""
+        s0 = self.expr(scope, STR, depth)
+        k = self.rng.random()
+        if k < 0.25:
+            ms = [] if self.chance(0.6) else [("none",), ("int", self.pick([0, 1, 2, -1, 5]))]
+            return ("meth", s0, self.pick(["split", "rsplit"]), ms)
+        if k < 0.65:
+            ms = [] if self.chance(0.55) else [("int", self.pick([0, 1, 2, -1, 5]))]
+            return ("meth", s0, self.pick(["split", "split", "rsplit"]), [self.sep_lit()] + ms)
+        if k < 0.8:
+            return ("meth", s0, "splitlines", [] if self.chance(0.5) else [("bool", self.chance(0.6))])
+        if k < 0.9:
+            return ("call", ("var", "list"), [("meth", s0, "elems", [])], [], None, None)
+        x = self.fresh("c")
+        return ("lcomp", ("bin", "+", ("var", x), ("var", x)), [("for", ("tvar", x), ("meth", s0, "elems", []))])
+
+    def str_op(self, scope, t, depth):
+        """An expression of type t whose outermost operation is a string operation; None if there is none for t."""
+        S = lambda: self.expr(scope, STR, depth)
+        k = self.rng.random()
+        if t == STR:
+            if k < 0.14:
+                return ("meth", S(), self.pick(["upper", "lower", "capitalize", "title"]), [])
+            if k < 0.26:
+                m = self.pick(["strip", "lstrip", "rstrip"])
+                return ("meth", S(), m, [] if self.chance(0.5) else [("str", self.pick([" ", "ab", "xyz_", "\n\t ", "a", ",.-", ""]))])
+            if k < 0.38:
+                cnt = [] if self.chance(0.6) else [("int", self.pick([0, 1, 2, 5]))]
+                return ("meth", S(), "replace", [self.needle(scope, depth), self.expr(scope, STR, 0)] + cnt)
+            if k < 0.5:
+                sep = self.expr(scope, STR, 0)
+                if self.chance(0.6):
+                    return ("meth", sep, "join", [self.str_list_expr(scope, depth)])
+                if self.chance(0.5):
+                    return ("meth", sep, "join", [self.expr(scope, tlist(STR), depth)])
+                return ("meth", sep, "join", [("tuple", [S() for _ in range(self.rng.randint(0, 3))])])
+            if k < 0.56:
+                return ("meth", S(), self.pick(["removeprefix", "removesuffix"]), [self.needle(scope, depth)])
+            if k < 0.7:
+                self.note("percent_format")
+                return self.percent_expr(scope, depth)
+            if k < 0.84:
+                self.note("dot_format")
+                return self.format_expr(scope, depth)
+            if k < 0.9:
+                self.note("repr_or_str")
+                return ("call", ("var", self.pick(["repr", "str"])), [self.expr(scope, self.repr_safe_type(2), depth)], [], None, None)
+            if k < 0.93:
+                return ("call", ("var", "chr"), [("int", self.rng.randint(32, 126))], [], None, None)
+            if k < 0.97:
+                return ("call", ("var", self.pick(["min", "max"])), [S(), S()] + ([S()] if self.chance(0.3) else []), [], None, None)
+            return ("index", ("meth", S(), self.pick(["partition", "rpartition"]), [self.sep_lit()]), ("int", self.pick([0, 1, 2, -1])))
+        if t == INT:
+            if k < 0.4:
+                return ("meth", S(), self.pick(["find", "rfind"]), [self.needle(scope, depth)] + self.window_args())
+            if k < 0.6:
+                return ("meth", S(), "count", [self.needle(scope, depth)] + self.window_args())
+            if k < 0.72:
+                # index of a substring that is certainly there
+                p = self.sep_lit()
+                return ("meth", ("bin", "+", S(), p), self.pick(["index", "rindex"]), [p])
+            if k < 0.82:
+                return ("call", ("var", "ord"), [("str", self.pick(STR_ALPHA))], [], None, None)
+            if k < 0.92:
+                return ("call", ("var", "len"), [self.str_list_expr(scope, depth)], [], None, None)
+            return ("call", ("var", "int"), [("call", ("var", "str"), [self.expr(scope, INT, depth)], [], None, None)], [], None, None)
+        if t == BOOL:
+            if k < 0.4:
+                m = self.pick(["startswith", "endswith"])
+                if self.chance(0.3):
+                    aff = ("tuple", [self.needle(scope, 0) for _ in range(self.rng.randint(0, 3))])
+                else:
+                    aff = self.needle(scope, depth)
+                return ("meth", S(), m, [aff] + self.window_args())
+            if k < 0.8:
+                return ("meth", S(), self.pick(["isdigit", "isalpha", "isalnum", "isspace", "isupper", "islower", "istitle"]), [])
+            return ("bin", self.pick(["in", "not in"]), self.needle(scope, depth), S())
+        if t == tlist(STR):
+            return self.str_list_expr(scope, depth)
+        if t == ttuple([STR, STR, STR]):
+            return ("meth", S(), self.pick(["partition", "rpartition"]), [self.sep_lit()])
+        if t == tlist(ttuple([INT, STR])):
+            st = [] if self.chance(0.7) else [("int", self.rng.randint(-2, 5))]
+            return ("call", ("var", "enumerate"), [("meth", S(), "elems", [])] + st, [], None, None)
+        if t == tlist(ttuple([STR, STR])):
+            return ("call", ("var", "zip"), [("meth", S(), "elems", []), ("meth", S(), "elems", [])], [], None, None)
+        return None
+
+    def string_failure(self, scope, depth):
+        """A string operation that fails at run time in both Starlark and Python."""
+        k = self.rng.random()
+        S = lambda: self.expr(scope, STR, depth)
+        if k < 0.12:
+            return ("bin", "%", ("str", "%d and %s"), ("tuple", [self.expr(scope, INT, depth)]))                  # not enough arguments
+        if k < 0.24:
+            return ("bin", "%", ("str", "only %s"), ("tuple", [self.expr(scope, INT, depth), S()]))              # too many arguments
+        if k < 0.32:
+            return ("bin", "%", ("str", "%d"), S())                                                             # %d of a string
+        if k < 0.38:
+            return ("bin", "%", ("str", self.pick(["100%", "%z", "%"])), ("tuple", [] if self.chance(0.5) else [("int", 1)]))
+        if k < 0.5:
+            return ("meth", S(), self.pick(["index", "rindex"]), [("str", "no such!")])
+        if k < 0.6:
+            return ("meth", ("str", "{} and {}"), "format", [self.expr(scope, INT, depth)])                      # index out of range
+        if k < 0.68:
+            return ("meth", ("str", "{missing}"), "format", [], [("other", self.expr(scope, INT, depth))])       # unknown name
+        if k < 0.76:
+            return ("meth", ("str", self.pick(["{0} {}", "{} {0}", "{", "}", "{a", "a}b"])), "format", [("int", 1), ("int", 2)])
+        if k < 0.84:
+            return ("meth", ("str", ","), "join", [("list", [S(), self.expr(scope, INT, depth)])])
+        if k < 0.9:
+            return ("meth", S(), self.pick(["partition", "rpartition"]), [("str", "")])
+        if k < 0.95:
+            return ("call", ("var", "ord"), [("str", self.pick(["", "ab"]))], [], None, None)
+        return ("meth", S(), self.pick(["find", "count", "startswith", "split"]), [self.expr(scope, INT, depth)])   # wrong argument type
 
     def nonzero(self, e):
         if e[0] == "int" and e[1] == 0:
@@ -389,6 +621,11 @@ class Gen:
     def planted_failure(self, scope, depth):
         """One statement that fails at run time (in both Python and Starlark)."""
         self.fail_planted = True
+        if self.strings and self.chance(0.3):
+            self.note("planted_failure")
+            self.note("planted_string_failure")
+            self.uses_strings = True
+            return ("expr", self.string_failure(scope, depth))
         k = self.rng.random()
         self.note("planted_failure")
         if k < 0.2:
@@ -484,7 +721,10 @@ class Gen:
         d = self.max_depth - 2
         k = self.rng.random()
         x = self.fresh("i")
-        if k < 0.4:
+        if self.strings and self.chance(0.12):
+            it, et, lock = ("meth", self.expr(scope, STR, d), "elems", []), STR, None
+            self.uses_strings = True
+        elif k < 0.4:
             it, et, lock = self.range_expr(scope, d), INT, None
         elif k < 0.8:
             et = self.pick([INT, STR, ttuple([INT, STR]), tlist(INT)])
@@ -588,7 +828,24 @@ PREC = {"or": 1, "and": 2, "not": 3, "cmp": 4, "|": 5, "^": 6, "&": 7, "<<": 8, 
 
 
 def q(s):
-    return '"' + s.replace("\\", "\\\\").replace('"', '\\"') + '"'
+    out = []
+    for ch in s:
+        o = ord(ch)
+        if ch == "\\":
+            out.append("\\\\")
+        elif ch == '"':
+            out.append('\\"')
+        elif ch == "\n":
+            out.append("\\n")
+        elif ch == "\t":
+            out.append("\\t")
+        elif ch == "\r":
+            out.append("\\r")
+        elif o < 32 or o == 127:
+            out.append("\\x%02x" % o)
+        else:
+            out.append(ch)
+    return '"' + "".join(out) + '"'
 
 
 def src_expr(e):
@@ -636,7 +893,10 @@ def src_expr(e):
             args.append("**" + src_expr(e[5]))
         return "%s(%s)" % (src_expr(e[1]), ", ".join(args))
     if k == "meth":
-        return "%s.%s(%s)" % (src_expr(e[1]), e[2], ", ".join(src_expr(a) for a in e[3]))
+        if _PY[0] and e[2] == "elems" and not e[3]:
+            return "list(%s)" % src_expr(e[1])
+        kw = e[4] if len(e) > 4 else []
+        return "%s.%s(%s)" % (src_expr(e[1]), e[2], ", ".join([src_expr(a) for a in e[3]] + ["%s=%s" % (n, src_expr(v)) for n, v in kw]))
     if k == "lambda":
         return "(lambda %s: %s)" % (", ".join(src_param(p) for p in e[1]), src_expr(e[2]))
     if k == "lcomp":
@@ -730,8 +990,34 @@ def source_of(prog):
     return "\n".join(render_src(nprog)) + "\n", nprog
 
 
+def python_source_of(prog):
+    """The CPython rendering (same lines; differs only where Python spells a shared operation differently)."""
+    _PY[0] = True
+    try:
+        return source_of(prog)[0]
+    finally:
+        _PY[0] = False
+
+
 def cq(s):
-    return '"' + s.replace('"', '""') + '"'
+    """A Gallina string term; control characters are spelled with ascii_of_nat (no raw control bytes in .v files)."""
+    if all(32 <= ord(ch) < 127 for ch in s):
+        return '"' + s.replace('"', '""') + '"'
+    parts, cur = [], ""
+    for ch in s:
+        if 32 <= ord(ch) < 127:
+            cur += ch
+        else:
+            if cur:
+                parts.append('"' + cur.replace('"', '""') + '"')
+                cur = ""
+            parts.append('(String (Ascii.ascii_of_nat %d%%nat) "")' % ord(ch))
+    if cur:
+        parts.append('"' + cur.replace('"', '""') + '"')
+    out = parts[-1]
+    for p_ in reversed(parts[:-1]):
+        out = "(String.append %s %s)" % (p_, out)
+    return out
 
 
 def z(n):
@@ -778,7 +1064,9 @@ def coq_expr(e):
         return "(ECall %s [%s] [%s] %s %s)" % (coq_expr(e[1]), "; ".join(coq_expr(a) for a in e[2]),
                                               "; ".join("(%s, %s)" % (cq(n), coq_expr(v)) for n, v in e[3]), coq_opt(e[4]), coq_opt(e[5]))
     if k == "meth":
-        return "(EMeth %s %s [%s])" % (coq_expr(e[1]), cq(e[2]), "; ".join(coq_expr(a) for a in e[3]))
+        kw = e[4] if len(e) > 4 else []
+        return "(EMeth %s %s [%s] [%s])" % (coq_expr(e[1]), cq(e[2]), "; ".join(coq_expr(a) for a in e[3]),
+                                            "; ".join("(%s, %s)" % (cq(n), coq_expr(v)) for n, v in kw))
     if k == "lambda":
         return "(ELambda [%s] %s)" % ("; ".join(coq_param(p) for p in e[1]), coq_expr(e[2]))
     if k == "lcomp":
@@ -841,7 +1129,8 @@ def generate(seed, **kw):
     g = Gen(random.Random(seed), **kw)
     prog = g.program()
     src, nprog = source_of(prog)
-    return {"seed": seed, "prog": prog, "src": src, "coq": coq_block(nprog), "stats": g.stats, "want_fail": g.want_fail}
+    return {"seed": seed, "prog": prog, "src": src, "coq": coq_block(nprog), "stats": g.stats, "want_fail": g.want_fail,
+            "uses_strings": g.uses_strings}
 
 
 def wrap_in_function(prog):
